@@ -497,7 +497,7 @@ def run(ctx: Ctx):
     kinds = ["ts", "grp", "rec", "coord", "dt", "ref"]
     pay = [("serial_cases", {"seed": base + i, "n": n_serial, "kinds": kinds}) for i in range(nsh)]
     payc = [("config_cases", {"seed": base + 500 + i, "n": n_cfg}) for i in range(nsh)]
-    payx = [{"seed": base + 300 + i, "n": 5 if ctx.quick else 12} for i in range(nsh)]
+    payx = [{"seed": base + 300 + i, "n": 3 if ctx.quick else 12} for i in range(nsh)]
     sres = parallel_workers("c18_impl", "serial_cases", [p for _, p in pay], timeout=900)
     cres_ = parallel_workers("c18_impl", "config_cases", [p for _, p in payc], timeout=900)
     xres = parallel_workers("c18_impl", "context_cases", payx, timeout=900)
